@@ -37,6 +37,25 @@ def process_harness(ctx, res, pkg_rel, max_replay_per_driver=2, order_free=None)
     if not cases:
         return new, known, 0, mismatches, details
     nat, testfile = runner.native_replay(ctx, pkg_rel, [(c[0], c[1], c[2]["model"]) for c in cases])
+
+    def native_failed(f, n):
+        if n is None:
+            return False
+        if f["kind"] == "uncaught-panic":
+            return n["panic"] not in ("", "<nil>")
+        return f["assert_id"] in n["fails"]
+
+    # native map iteration order is random: a failure that depends on the order (the engine fixes
+    # one admissible order) may need several native runs to show
+    if order_free:
+        for _ in range(15):
+            todo = [c for c in cases if re.search(order_free, c[3]["name"]) and not native_failed(c[2], nat.get(c[0]))]
+            if not todo:
+                break
+            again, _tf = runner.native_replay(ctx, pkg_rel, [(c[0], c[1], c[2]["model"]) for c in todo])
+            for c in todo:
+                if native_failed(c[2], again.get(c[0])):
+                    nat[c[0]] = again[c[0]]
     for cname, fn, f, d in cases:
         n = nat.get(cname)
         confirmed = False
@@ -81,7 +100,7 @@ def self_validate(ctx, res, impl_tree=None, harness_pkg=None, order_free=None, m
     for the same nondet vector. Returns (validated, mismatches)."""
     by_pkg = {}
     for d in res["drivers"]:
-        if d["status"] != "holds" or not d.get("samples") or (d.get("_extra") and ctx.ws.endswith("/ws")):
+        if d["status"] != "holds" or not d.get("samples") or (d.get("_extra") and ctx.ws.endswith("/ws")) or d.get("_rt"):
             continue
         if order_free and re.search(order_free, d["name"]):
             continue
@@ -293,7 +312,7 @@ def plan_C10(ctx):
                    "slice_len_max": ctx.q(3, 5), "slice_mutations": "per iteration one of none/store/append/shrink/nil, spare capacity 0 or 1",
                    "map_entries_max": ctx.q(3, 4), "map_key_value_types": ["int->int with deletion script", "string->any incl. nil", "any(incl. nil)->int"],
                    "chan_values_max": 3,
-                   "outside": "longer strings/collections; map insertion during iteration; map iteration order (fixed to insertion order in both halves); unbuffered channels and concurrent senders; floating-point (NaN) map keys: the engine has no floating point (seed C10_r3 is therefore not caught)"},
+                   "outside": "longer strings/collections; map iteration order (one admissible order in both halves: insertion order, an entry created during the loop is produced next); outcomes of insertion during iteration other than that; unbuffered channels and concurrent senders; floating-point (NaN) map keys: the engine has no floating point (seed C10_r3 is therefore not caught)"},
         "exhaustive": True,
         "explanation": "native range and seq.New*Iter run in the same harness on the same symbolic input; UTF-8 decoding is forked per byte class with solver-checked feasibility; one equality query per path",
         "details": details[:20],
@@ -442,6 +461,14 @@ def directed_c01():
     D.append(("yield_only_body_continue_in_if_yield_post", [("decl", "i", "0"), ("for", None, "i < n", ("yield", "i + 100"), [("if", "g1", [Y("i + 1"), ("inc", "i"), ("continue",)], [("inc", "i")])]), Y("a")]))
     D.append(("switch_break_and_continue_in_loop", [("for", ("decl", "i", "0"), "i < n + 1", ("inc", "i"), [("switch", None, "i & 1", [("0", [Y("i + 1"), ("continue",)]), ("1", [Y("i + 2"), ("if", "g1", [("break",)], None), Y("i + 3")])], None), Y("i + 4")]), Y("a")]))
     D.append(("switch_in_yield_post_loop_break_continue", [("decl", "i", "0"), ("for", None, "i < n + 1", ("yield", "i + 100"), [("inc", "i"), ("switch", None, "i & 1", [("0", [Y("i + 1"), ("if", "g1", [("break",)], None), Y("i + 2")]), ("1", [Y("i + 3"), ("continue",)])], None), Y("i + 4")]), Y("a")]))
+    # a yielding initialiser in front of a loop that stays native
+    D.append(("yield_init_native_loop_body_ends_in_if", [("decl", "i", "0"), ("for", ("yield", "a + 100"), "i < n", ("inc", "i"), [E(1), ("if", "i & 1 == 0", [E(2)], None)]), Y("i + 1"), E(3)]))
+    D.append(("yield_init_native_loop_body_ends_in_switch", [("decl", "i", "0"), ("decl", "t", "0"), ("for", ("yield", "b + 100"), "i < n + 1", ("inc", "i"), [("switch", None, "i & 1", [("0", [("assign", "t", "t + i")])], None)]), Y("t + 1")]))
+    D.append(("yieldfrom_init_native_loop_body_ends_in_if_else", [("decl", "i", "0"), ("decl", "t", "0"), ("for", ("yieldfrom", "H2(a)"), "i < n", ("inc", "i"), [("if", "g1", [("assign", "t", "t + 1")], [("if", "g2", [("assign", "t", "t + 2")], None)])]), Y("t"), Y("i")]))
+    # a break of the switch behind a yield, inside an if that is the LAST statement of its clause
+    D.append(("switch_clause_ends_in_if_with_break_behind_yield", [("for", ("decl", "i", "0"), "i < n + 1", ("inc", "i"), [("switch", None, "i & 1", [("0", [E(1), ("if", "g1", [Y("i + 1"), ("if", "g2", [("break",)], None), Y("i + 2")], None)]), ("1", [E(2)])], None), Y("i + 3")]), Y("a")]))
+    D.append(("switch_clause_ends_in_if_else_with_break_behind_yield", [("switch", None, "a & 1", [("0", [("if", "g1", [Y("a + 1"), ("break",)], [Y("a + 2"), ("if", "g2", [("break",)], None), E(1)])])], [E(2)]), Y("b + 3")]))
+    D.append(("tswitch_clause_ends_in_if_with_break_behind_yield", [("raw", "var t any = a"), ("for", ("decl", "i", "0"), "i < n", ("inc", "i"), [("tswitch", "v", "t", [("int", [("if", "g1", [Y("v + i"), ("break",)], None)])], None), Y("i + 2")]), Y("b")]))
     D.append(("tagless_switch_in_loop_with_continue", [("for", ("decl", "i", "0"), "i < n", ("inc", "i"), [("switch", None, None, [("i == 0", [Y("a + 1")]), ("i > 1", [Y("i + 2"), ("continue",)])], [E(1)]), Y("i + 100")]), Y("b")]))
     D.append(("tagless_switch_with_init_last_in_loop", [("for", ("decl", "i", "0"), "i < n", ("inc", "i"), [("switch", ("decl", "x", "i + a"), None, [("x > b", [Y("x + 1")]), ("g1", [E(1)])], None)]), Y("b")]))
     D.append(("for_without_condition", [("for", ("decl", "i", "0"), None, ("inc", "i"), [("if", "i >= n", [("break",)], None), Y("i + 1"), ("if", "g1", [("continue",)], None), E(1)]), Y("a")]))
@@ -818,6 +845,8 @@ def directed_c05():
     D.append(("else_block_trivial_if_then_shared_delegate", [("raw", "it := H1(a)"), ("if", "g1", [YF("it")], [("if", "g2", [("eff", 763)], None), ("raw", "it.MoveNext()"), YF("it")]), YF("it"), Y("b")]))
     D.append(("continue_in_switch_yieldfrom_post", [("decl", "i", "0"), ("for", None, "i < n", ("yieldfrom", "H2(i)"), [("inc", "i"), ("switch", None, "i & 1", [("1", [("eff", 764), ("continue",)])], None), Y("i + 1")]), Y("a")]))
     D.append(("continue_in_tswitch_yieldfrom_post", [("raw", "var t any = a"), ("decl", "i", "0"), ("for", None, "i < n", ("yieldfrom", "H2(i)"), [("inc", "i"), ("tswitch", None, "t", [("int", [("if", "g1", [("continue",)], None)])], None), Y("i + 1")]), Y("b")]))
+    D.append(("switch_clause_ends_in_if_break_behind_delegation", [("for", ("decl", "i", "0"), "i < n + 1", ("inc", "i"), [("switch", None, "i & 1", [("0", [("if", "g1", [YF("H2(i)"), ("break",)], None)])], [("eff", 765)]), Y("i + 1")]), Y("a")]))
+    D.append(("switch_clause_ends_in_if_else_break_behind_delegation_no_loop", [("switch", None, "a & 1", [("0", [("eff", 766), ("if", "g1", [YF("H2(a)"), ("if", "g2", [("break",)], None), Y("a + 1")], [Y("b")])])], None), Y("b + 99")]))
     D.append(("same_iter_twice", [("raw", "it := H1(a)"), YF("it"), YF("it"), Y("b")]))
     return D
 
@@ -887,6 +916,9 @@ def directed_c03():
     D.append(("multi_define_in_tswitch_clause_after_yield", [("raw", "var t any = b"), ("tswitch", "v", "t", [("int", [("decl", "x", "a + 1"), ("raw", "p := &x"), Y("v + x"), ("raw", "x, w := v+2, a+3"), Y("x + w"), Y("*p + 5")])], None), Y("b + 9")]))
     D.append(("multi_define_in_default_clause_after_yield", [("switch", None, "b & 1", [("0", [Y("a")])], [("decl", "x", "a + 1"), ("raw", "set := func(v int) { x = v }"), Y("x + 1"), ("raw", "x, y := b+2, a+3"), ("raw", "set(x + y)"), Y("x + 2")]), Y("b + 9")]))
     D.append(("multi_define_in_if_and_loop_after_yield", [("decl", "x", "a + 1"), ("raw", "get := func() int { return x }"), ("for", ("decl", "i", "0"), "i < n", ("inc", "i"), [Y("get() + i"), ("raw", "x, y := x+i, i"), Y("x + y")]), ("if", "g1", [Y("x"), ("raw", "x, z := b, 1"), Y("x + z + get()")], None), Y("get() + 9")]))
+    # range over an iterator inside a generator: the body re-declares the loop variable
+    D.append(("iter_range_body_redeclares_loopvar", [("raw", "for v := range H2(a) {\n\tget := func() int { return v }\n\tw, v := v+1, v*10\n\tYield(v + w)\n\tYield(get())\n}"), Y("b")]))
+    D.append(("iter_range_body_shadows_loopvar_first", [("raw", "for v := range H2(a) {\n\tv := v + b\n\tYield(v)\n}"), Y("b")]))
     # a multi-value ':=' that re-assigns a name declared in the function / clause header
     D.append(("multi_define_reassigns_parameter", [("raw", "get := func() int { return a }"), Y("get() + 1"), ("raw", "a, z := a+10, b+1"), Y("a + z"), Y("get() + 2"), ("raw", "set := func(v int) { a = v }\nset(b + 3)"), Y("a + 4")]))
     D.append(("multi_define_reassigns_parameter_before_yield", [("raw", "p := &a"), ("raw", "a, z := b+10, 1"), Y("a + z"), Y("*p + 2")]))
@@ -984,7 +1016,7 @@ def plan_C04(ctx):
     extra = {
         "bounds": {"advances_K": K, "string_bytes": "length 0..%d, bytes fully symbolic" % ctx.q(3, 4), "slice/array/map/chan sizes": "<= 3, elements symbolic",
                    "integer_range": "n in [-2,3] symbolic, in a second workspace with go 1.22 sources",
-                   "outside": "map iteration order (both worlds iterate in insertion order; native replay of map programs compares only that a difference exists); map insertion during iteration; unbuffered channels"},
+                   "outside": "map iteration order (both worlds use one admissible order: insertion order, an entry created during the loop is produced next; native replay of map programs compares only that a difference exists); unbuffered channels"},
         "explanation": "reference = go/ssa's own lowering of the native range statement in the source (single evaluation, length snapshot, array copy) under coroutine semantics; implementation = generated loop over seq.New*Iter; flat log equality",
     }
     # integer range needs go >= 1.22 sources: a second workspace whose go.mod says go 1.22
@@ -1128,6 +1160,12 @@ CLAIMED["C07"] = plan_C07
 def plan_C13(ctx):
     def build(corp):
         ps = gen.c13_programs()
+        # ordinary closures inside generator bodies that range over a slice / array pointer and write
+        # ahead of the cursor (a native range sees the stored elements)
+        PRE = "pre := func(xs []int) {\n\tfor i, v := range xs {\n\t\tif i+1 < len(xs) {\n\t\t\txs[i+1] += v\n\t\t}\n\t}\n}\nxs := []int{a, b, a + b, 1}\npre(xs)"
+        PA = "var arr [4]int\nfill := func(p *[4]int) {\n\tfor i, v := range p {\n\t\tif i+1 < len(p) {\n\t\t\tp[i+1] = v + a + i\n\t\t}\n\t}\n}\narr[0] = b\nfill(&arr)"
+        ps.append(gen.Program("n_closure_prefix_sums", [("raw", PRE), ("yield", "xs[1]"), ("yield", "xs[2] + xs[3]")], named_result=True, family="bys", tags={"bystander:closure-in-generator"}))
+        ps.append(gen.Program("n_closure_array_pointer_fill", [("yield", "a"), ("raw", PA), ("yield", "arr[1]"), ("yield", "arr[2] + arr[3]")], named_result=True, family="bys", tags={"bystander:closure-in-generator"}))
         for p in ps:
             corp.add(p)
         return {"bystander_programs": len(ps), "shapes": [n for n, _ in gen.C13_BODIES],
@@ -1302,13 +1340,23 @@ def plan_C14(ctx):
     for d in res22["drivers"]:
         d["_ws22"] = True
     res["drivers"] += res22["drivers"]
+    # iterators started from one shared seq term (public seq API; compiled generators build a term per call)
+    nterms = 8
+    with open(os.path.join(ctx.ws, "rt/c14/zz_drivers.go"), "w") as f:
+        f.write("package c14\n\n" + "\n".join("func Drive_shared_%d() { DriveShared(%d, %d, %d) }" % (ti, ti, k, m) for ti in range(nterms)) + "\n")
+    res_rt = runner.run_engine(ctx, ["-harness", "verifws/rt/c14"] + args, name="result_rt")
+    for d in res_rt["drivers"]:
+        d["_rt"] = True
+    res["drivers"] += res_rt["drivers"]
+    for kf, vf in res_rt.get("functions_encoded", {}).items():
+        res["functions_encoded"][kf] = res["functions_encoded"].get(kf, 0) + vf
     for kf, vf in res22.get("functions_encoded", {}).items():
         res["functions_encoded"][kf] = res["functions_encoded"].get(kf, 0) + vf
     for d in res["drivers"]:
         if d["status"] != "violated":
             continue
         pctx = ctx22 if d.get("_ws22") else ctx
-        pkg_rel = "out/" + d["name"].rsplit(".", 1)[0].split("/")[-1]
+        pkg_rel = "rt/c14" if d.get("_rt") else "out/" + d["name"].rsplit(".", 1)[0].split("/")[-1]
         fp = [f for f in d["failures"] if f["kind"] == "footprint"]
         other = [f for f in d["failures"] if f["kind"] != "footprint"]
         if other:
